@@ -115,13 +115,39 @@ pub fn run(ctx: &Ctx) -> Report {
                 scenarios.push(("wake_up".into(), v, true));
             }
         }
+        // operations that re-initialise internally are listed by the property next to new / wake_up:
+        // their pulse is judged the same way (nothing on the bus before it), from several driver states
         for k in spec.reinit_ops {
             match k {
-                K::UpdateNew | K::UpdateAndDisplayNew => scenarios.push((k.name().into(), vec![frame_op(spec, K::UpdateOld, 1), frame_op(spec, *k, 2)], false)),
-                K::UpdatePartial => scenarios.push((k.name().into(), vec![partial_op(spec, *k, canonical_windows(spec)[0], 3)], false)),
+                K::UpdateNew | K::UpdateAndDisplayNew => {
+                    scenarios.push((k.name().into(), vec![frame_op(spec, K::UpdateOld, 1), frame_op(spec, *k, 2)], true));
+                    scenarios.push((k.name().into(), vec![frame_op(spec, *k, 2)], true));
+                    scenarios.push((k.name().into(), vec![frame_op(spec, K::UpdateAndDisplay, 4), frame_op(spec, K::UpdateOld, 1), frame_op(spec, *k, 2), frame_op(spec, *k, 3)], true));
+                    scenarios.push((k.name().into(), vec![Op::new(K::Sleep), Op::new(K::WakeUp), frame_op(spec, K::UpdateOld, 1), frame_op(spec, *k, 2)], true));
+                }
+                K::UpdatePartial => {
+                    let w = canonical_windows(spec);
+                    scenarios.push((k.name().into(), vec![partial_op(spec, *k, w[0], 3)], true));
+                    scenarios.push((k.name().into(), vec![frame_op(spec, K::UpdateAndDisplay, 4), partial_op(spec, *k, w[w.len() - 1], 3)], true));
+                }
                 K::SetRefresh => {
-                    scenarios.push((k.name().into(), vec![Op::arg(K::SetRefresh, 2)], false));
-                    scenarios.push((k.name().into(), vec![Op::arg(K::SetRefresh, 2), Op::arg(K::SetRefresh, 1)], false));
+                    scenarios.push((k.name().into(), vec![Op::arg(K::SetRefresh, 2)], true));
+                    scenarios.push((k.name().into(), vec![Op::arg(K::SetRefresh, 2), Op::arg(K::SetRefresh, 1)], true));
+                    scenarios.push((k.name().into(), vec![Op::arg(K::SetRefresh, 2), Op::arg(K::SetRefresh, 1), Op::arg(K::SetRefresh, 2)], true));
+                    scenarios.push((k.name().into(), vec![Op::arg(K::SetRefresh, 2), frame_op(spec, K::UpdateAndDisplay, 4), Op::arg(K::SetRefresh, 1)], true));
+                    scenarios.push((k.name().into(), vec![frame_op(spec, K::UpdateAndDisplay, 4), Op::arg(K::SetRefresh, 2)], true));
+                    scenarios.push((k.name().into(), vec![Op::new(K::Sleep), Op::arg(K::SetRefresh, 2)], true));
+                    scenarios.push((k.name().into(), vec![Op::arg(K::SetRefresh, 2), Op::new(K::Sleep), Op::arg(K::SetRefresh, 1)], true));
+                    if ctx.tier_thorough {
+                        for s in syms(spec) {
+                            for (a, b) in [(2u32, 1u32), (1, 2)] {
+                                let mut v = vec![Op::arg(K::SetRefresh, a)];
+                                v.extend(s.clone());
+                                v.push(Op::arg(K::SetRefresh, b));
+                                scenarios.push((k.name().into(), v, true));
+                            }
+                        }
+                    }
                 }
                 _ => {}
             }
